@@ -26,6 +26,8 @@ type built struct {
 	Forced    bool
 	ForceGap  int64 // ns between the first CloseWrite and the forced Close
 	MaxRead   int
+	TReq      int64 // time of the proxy's first read on the client connection (lower bound of readRequest's t0)
+	TResp     int64 // time of its last read before the reply (lower bound of writeResponse's time.Now())
 	Inferred  int
 	PostReads int // end-of-stream / failed reads on a connection whose copier had already finished
 	Problems  []string
@@ -55,6 +57,10 @@ func buildTrace(sc *scenario) built {
 		}
 		switch {
 		case e.Who == "LC" && e.Op == "R":
+			if r0 == 0 {
+				b.TReq = e.T
+			}
+			b.TResp = e.T
 			r0 += int64(e.N)
 		case e.Who == "DC" && e.Op == "R":
 			r0f += int64(e.N)
@@ -179,6 +185,7 @@ func buildTrace(sc *scenario) built {
 					b.PostReads++
 					continue
 				}
+				tick(e.T) // a copier may fail only on a closed connection or after an armed deadline has passed
 				d := rd
 				if e.Op == "Werr" {
 					d = wd
